@@ -845,6 +845,32 @@ class RoundGen:
                 v = abs(v)
             unit = node["unit"] if (node["unit"] is not None and rng.random() < 0.5) else None
             self.m.stats.probe("integer_beyond_2**53")
+        if fault is None and typ in ("int", "float") and isinstance(v, (int, float)) \
+                and not isinstance(v, bool) and abs(v) < 2 ** 53 and not on_boundary \
+                and unit is not None and not unit.startswith("[") and unit not in DM.TEMP \
+                and cfg["prop"] in ("C14", "C17") and st.get("k") == "def" \
+                and not self.g.units.custom and rng.random() < 0.25:
+            # the value is written as an expression: the assignment is an assignment all the
+            # same, also when the result is zero (operands in the statement's own unit; what
+            # expressions compute in general is another property's business).  Typed form only:
+            # an untyped line ignores the expression altogether on the pinned tree, an
+            # environment with custom units refuses every expression and so does a node without
+            # unit (all noted in DESIGN 10.1, all C18's)
+            free = not node["options"] and node["condition"] is None
+            x = abs(self.number(typ))
+            if free and rng.random() < 0.5:
+                # (zero operands: 'x cm - x cm' goes through base units and may come back as
+                # 1e-13 - rounding of expressions is not this property's subject)
+                z = 0 if typ == "int" else 0.0
+                st["expr"] = [z, rng.choice(["+", "-"]), z]
+                v = z
+            elif v >= 0:
+                b = min(x, v) if typ == "int" else float(f"{min(x, v) / 2:.4g}")
+                a = v - b
+                if a >= 0 and a + b == v:
+                    st["expr"] = [a, "+", b]
+            if st.get("expr"):
+                self.m.stats.probe("value_written_as_an_expression")
         st["value"] = v
         st["unit"] = unit
         if rng.random() < cfg.get("p_noise", 0):
